@@ -246,6 +246,12 @@ def stmtBytes (stmt : List (Bytes × Value)) (name : String) : Option Bytes :=
   | some v => asBytes v
   | none => none
 
+/-- `tpm.GetHardwareDetailsFromCertificate(cert)` succeeds: decided by the model of that function on the parsed SAN view -/
+def hardwareDetailsOK (der : Bytes) : Prog Bool := do
+  match ← query (.sanView der) with
+  | .san exts => pure (Tpm.detailsFromSan exts).isSome
+  | _ => pure false
+
 def verifyTPM (o : AttObj) (cdHash : Bytes) : Prog (Option Result) := do
   match ← unmarshalCertificates o.stmt with
   | .ok certs =>
@@ -294,7 +300,7 @@ def verifyTPM (o : AttObj) (cdHash : Bytes) : Prog (Option Result) := do
             | (der, c) :: rest =>
               if !(← askBool (.x509CheckSig der (Cose.algX509 alg) ciEnc (getSignature o.stmt))) then pure none
               else if c.version ≠ 3 then pure none
-              else if !(← askBool (.hardwareDetailsOK der)) then pure none
+              else if !(← hardwareDetailsOK der) then pure none
               else if !c.unknownEKUs.contains Generated.Core.oidAIKCertificate then pure none
               else if c.isCA then pure none
               else pure (some ⟨"AttCA", der :: rest.map (·.1)⟩)
